@@ -26,7 +26,7 @@ LAD = [0, 1, 2, 3, 7, 8, 9, 15, 16, 17, 31, 32, 33, 63, 64, 65, 127, 128, 129, 2
 BIG = [65535, 65536, 65537]
 DEPTHS = [1, 2, 3, 7, 8, 9, 15, 16, 17, 31, 32, 33, 63, 64, 65, 127, 128, 129, 130, 255, 256, 257, 300, 1023, 1024, 1025]
 LEXEMES = {1, 3, 4, 0x0c, 0x0d, 0x0e, 0x0f, 0x14, 0x17, 0x167, 0x243, 0x29c, 0x317}
-MODEL_MAX = 1100          # occurrences / unknowns up to which the extracted model runs as well
+MODEL_MAX = 4200          # occurrences / unknowns up to which the extracted model runs as well
 TPATHS = ["slice", "tape", "objreader", "reader"]
 BPATHS = ["tape", "slice", "reader"]
 
